@@ -185,6 +185,11 @@ pub(crate) struct RingReader<R> {
     // Absolute offset after bytes returned to the consumer.
     returned_total: u64,
 
+    // The underlying reader has reported its end (`Ok(0)`). The read-ahead for diagnostics does not
+    // poll it again: a reader may block for ever when asked once more (a terminal after Ctrl-D, a
+    // FIFO), and the error that wants the snippet is already known.
+    inner_ended: bool,
+
     // The first two bytes of the stream (the place of a UTF-16 byte-order mark).
     stream_head: [u8; 2],
 }
@@ -198,6 +203,7 @@ impl<R> RingReader<R> {
             ring_start_line: 1,
             stash: FixedRingBuffer::new(),
             returned_total: 0,
+            inner_ended: false,
             stream_head: [0; 2],
         }
     }
@@ -321,7 +327,7 @@ impl<R> RingReader<R> {
     where
         R: Read,
     {
-        if max_additional == 0 {
+        if max_additional == 0 || self.inner_ended {
             return Ok(0);
         }
 
@@ -336,6 +342,7 @@ impl<R> RingReader<R> {
             let want = remaining.min(SCRATCH);
             let n = self.inner.read(&mut scratch[..want])?;
             if n == 0 {
+                self.inner_ended = true;
                 break; // EOF
             }
 
@@ -390,6 +397,7 @@ impl<R: Read> Read for RingReader<R> {
         // No read-ahead pending: read exactly what the consumer asks for.
         let n = self.inner.read(buf)?;
         if n == 0 {
+            self.inner_ended = true;
             return Ok(0);
         }
 
